@@ -610,7 +610,7 @@ class XsdAnyElement(XsdWildcard, ParticleMixin,
             else:
                 return any(ns not in other.not_namespace for ns in self.namespace)
         elif self.namespace == other.namespace:
-            return True
+            return bool(self.namespace)
         elif '##any' in self.namespace or '##any' in other.namespace:
             return True
         elif '##other' in self.namespace:
